@@ -1045,6 +1045,11 @@ func jsonStr(s string) string { b, _ := json.Marshal(s); return string(b) }
 // label_format of the generated queries meet the extracted labels
 var uKeys = []string{"café", "größe", "ab€", "\U0001D11Ek", "e\u0301x"}
 
+// keys holding ill-formed UTF-8: a lone continuation byte, an overlong form, a surrogate, a cut 3-byte sequence, a byte that
+// is never valid, a cut 4-byte sequence followed by ASCII
+// (only in the single-line rows of the json-only stream: a label map of the main stream travels as JSON text, which cannot hold them)
+var badUTF8Keys = []string{"a\xa9k", "\xc0\xafk", "k\xed\xa0\x80", "x\xe2\x82", "\xffz", "q\xf0\x9d\x84k"}
+
 // logfmtPairs: the decoder oracle of the logfmt stage (github.com/kr/logfmt, as the stage calls it)
 type pairCollector struct{ pairs [][2]string }
 
